@@ -5,6 +5,6 @@ CONSTANTS
   MaxOps = 5
   FailAts = {0, 1, 2}
   Inits <- MCInits
-INVARIANT Inv
-PROPERTIES StickyError FlushEmpties ErrorsPerContract
+INVARIANT Inv CoreInvHolds
+PROPERTIES RefinesCore StickyError FlushEmpties ErrorsPerContract
 CHECK_DEADLOCK FALSE
